@@ -43,7 +43,7 @@ def collect(lanes):
 
 
 def render(res):
-    ids = sorted(d for d in os.listdir(SEEDED) if os.path.isdir(os.path.join(SEEDED, d)))
+    ids = sorted(d for d in os.listdir(SEEDED) if os.path.isfile(os.path.join(SEEDED, d, "meta.json")))
     lines = ["# Seeded breaking changes — which check catches which", "",
              "Each change was produced by an independent sub-agent from the property text alone, confirmed to compile, keep the",
              "repository's test suite green and fail its own demonstration test (`meta.json`). Detection = the property's own",
@@ -73,6 +73,10 @@ def render(res):
                                    else "MISSED by bin/check %s quick" % r["property"])
         json.dump(meta, open(os.path.join(SEEDED, sid, "meta.json"), "w"), indent=1)
     lines += ["", "Run so far: %d changes, %d caught by their property's own quick check, %d of them with a concrete failing history." % (n, caught, concrete)]
+    for h in sorted(glob.glob(os.path.join(SEEDED, "harmless-*", "result.json"))):
+        hr = json.load(open(h))
+        lines += ["", "### %s (must NOT be flagged): %s" % (hr["id"], hr["what"]), ""]
+        lines += ["- `%s`: exit %d, %d VIOLATION line(s) — %s" % (x["check"], x["exit"], x["violation_lines"], x["summary"]) for x in hr["results"]]
     notes = os.path.join(SEEDED, "NOTES.md")
     if os.path.exists(notes):
         lines += ["", open(notes).read()]
